@@ -84,13 +84,17 @@ def sv_field(name):
     return SV_BASE + off, ch, count
 
 
-def vcpu_field(name, p):
+def vcpu_field(name, p, base=VCPU_BASE):
     ch, off, _, count = structs()["vcpu"]["fields"][name]
-    return VCPU_BASE + 128 * p + off, ch, count
+    return base + 128 * p + off, ch, count
 
 
 # --------------------------------------------------------------------- chip
 class Chip(object):
+    vcpu_base = VCPU_BASE           # where this chip keeps its per-core blocks
+    sdram_sys = SDRAM_SYS           # its system buffer
+    rtr_copy = RTR_COPY             # its copy of the router tables
+
     def __init__(self, x, y, ncores=18):
         self.x, self.y = x, y
         self.mem = {}
@@ -119,6 +123,7 @@ class Chip(object):
     # -- memory
     def rd(self, a, n):
         m = self.mem
+        RTR_COPY = self.rtr_copy
         if a + n <= RTR_COPY or a >= RTR_COPY + 16 * 1024:
             return bytes(m.get(a + i, 0) for i in range(n))
         # the router copy is synthesised from the router state on demand
@@ -210,9 +215,9 @@ class Machine(object):
             c.poke(sv_field("p2p_addr")[0], "H", c.x << 8 | c.y)
             c.poke(sv_field("p2p_dims")[0], "H", self.w << 8 | self.h)
             c.poke(sv_field("num_cpus")[0], "B", c.ncores)
-            c.poke(sv_field("sdram_sys")[0], "I", SDRAM_SYS)
-            c.poke(sv_field("vcpu_base")[0], "I", VCPU_BASE)
-            c.poke(sv_field("rtr_copy")[0], "I", RTR_COPY)
+            c.poke(sv_field("sdram_sys")[0], "I", c.sdram_sys)
+            c.poke(sv_field("vcpu_base")[0], "I", c.vcpu_base)
+            c.poke(sv_field("rtr_copy")[0], "I", c.rtr_copy)
             c.poke(sv_field("alloc_tag")[0], "I", ALLOC_TAG)
             c.poke(sv_field("iobuf_size")[0], "I", getattr(c, "iobuf_size",
                                                            64))
@@ -227,11 +232,23 @@ class Machine(object):
             self.write_p2p(c)
             c.writes = []
 
+    def diversify(self, salt=0):
+        """Give every chip its own addresses for the structures rig finds
+        through pointers in the system variables (real chips need not agree
+        on them), then rewrite the mirrors."""
+        for (x, y), c in self.chips.items():
+            k = (x * 3 + y * 5 + salt) % 7
+            c.vcpu_base = VCPU_BASE + 0x1000 * k
+            c.sdram_sys = SDRAM_SYS + 0x8000 * ((k + 2) % 5)
+            c.rtr_copy = RTR_COPY + 0x8000 * ((k + 3) % 4)
+        self.finalise()
+
     def sync_vcpu(self, c):
         for p in range(c.ncores):
-            c.poke(vcpu_field("cpu_state", p)[0], "B", c.core_state[p])
-            c.poke(vcpu_field("app_id", p)[0], "B", c.core_app[p])
-            c.poke(vcpu_field("phys_cpu", p)[0], "B", p)
+            b = c.vcpu_base
+            c.poke(vcpu_field("cpu_state", p, b)[0], "B", c.core_state[p])
+            c.poke(vcpu_field("app_id", p, b)[0], "B", c.core_app[p])
+            c.poke(vcpu_field("phys_cpu", p, b)[0], "B", p)
 
     def p2p_entry(self, src, x, y):
         """3-bit P2P route on chip `src` towards (x, y)"""
